@@ -97,6 +97,8 @@ def rand_block(rng, reg, weighted):
     region, shape, spacing, adjust = B.block_args(rng, reg)
     if rng.random() < 0.5:
         red = "average" if weighted else rng.choice(["mean", "median", "sum"])
+        if weighted and rng.random() < 0.15:
+            red = rng.choice(["mean", "median", "sum"])      # cannot take the weights it is handed: TypeError, also through a chain
         return ["block_reduce", region, shape, spacing, adjust, red, rng.random() < 0.4, True]
     return ["block_mean", region, shape, spacing, adjust, rng.random() < 0.4, True, weighted and rng.random() < 0.5]
 
@@ -176,6 +178,11 @@ def corpus():
            mk(["chain", [["spline", 1e-3, 0.0], ["trend", 1]]], [es, ns], [d1], [w1], q, "corpus-spline-steps"),
            mk(["chain", [["trend", 0], ["knn", 2, "mean"], ["moment"], ["knn", 1, "mean"]]], [es, ns], [d1], None, q, "corpus-four-predicting-steps"),
            mk(["chain", [["trend", 1], ["trend", 1]]], [es, ns], [d1], None, q, "corpus-same-step-twice")]
+    # weights reaching a reduction that has no `weights` argument: the chain must fail exactly like the step itself (TypeError), not drop them
+    wmed = ["block_reduce", [0.0, 4.0, 0.0, 2.0], None, [1.0, 2.0], "spacing", "median", False, True]
+    cs += [mk(["chain", [wmed, ["moment"]]], [es, ns], [d1], [w1], q, "corpus-weights-into-unweighted-reduction"),
+           mk(["chain", [["trend", 1], ["chain", [wmed, ["trend", 0]]]]], [es, ns], [d1], [w1], q, "corpus-weights-into-unweighted-reduction"),
+           mk(["vector", [["chain", [wmed, ["moment"]]], ["trend", 1]]], [es, ns], [d1, d2], [w1, w1[::-1]], q, "corpus-weights-into-unweighted-reduction")]
     return cs
 
 
@@ -231,14 +238,22 @@ def generate(rng, tier):
     return cs
 
 
+def _shape(data):
+    """Every third even-sized case hands over 2-D arrays (gridded input): (2, n/2)."""
+    import zlib
+    n = len(data[0])
+    return [2, n // 2] if (n % 2 == 0 and n >= 4 and zlib.crc32(repr(data[0][:4]).encode()) % 3 == 0) else [n]
+
+
 def _args(coords, data, weights):
     key = repr(data[0][:3])
-    cs = tuple(C.mkarr(c, [len(c)], f"{key}c{i}") for i, c in enumerate(coords))
-    ds = tuple(C.mkarr(d, [len(d)], f"{key}d{i}") for i, d in enumerate(data))
+    shp = _shape(data)
+    cs = tuple(C.mkarr(c, shp, f"{key}c{i}") for i, c in enumerate(coords))
+    ds = tuple(C.mkarr(d, shp, f"{key}d{i}") for i, d in enumerate(data))
     if all(v == v and float(v).is_integer() for d in data for v in d):
         # integer-valued data are handed over with an integer dtype (elevations, counts): composition must not depend on it
         ds = tuple(np.asarray(d).astype("int64" if (len(data[0]) + i) % 2 else "int32") for i, d in enumerate(ds))
-    ws = None if weights is None else tuple(C.mkarr(w, [len(w)], f"{key}w{i}") for i, w in enumerate(weights))
+    ws = None if weights is None else tuple(C.mkarr(w, shp, f"{key}w{i}") for i, w in enumerate(weights))
     return cs, (ds[0] if len(ds) == 1 else ds), (None if ws is None else (ws[0] if len(ws) == 1 else ws))
 
 
@@ -264,6 +279,11 @@ def impl(case):
             pred = _tolist(g.predict(tuple(np.array(x) for x in q)))
             g2 = build(spec)
             fo = g2.filter(cs, d, w)
+            if not any(x[0].startswith("block") for x in ([spec] if spec[0] != "chain" else spec[1])):
+                # a composition of gridders: the residuals come back in the data's shape, next to the coordinates and weights it was given
+                fd, dd = (fo[1] if isinstance(fo[1], tuple) else (fo[1],)), (d if isinstance(d, tuple) else (d,))
+                if [np.shape(x) for x in fd] != [np.shape(x) for x in dd] or [np.shape(x) for x in fo[0]] != [np.shape(x) for x in cs]:
+                    raise RuntimeError(f"filter changed shapes: data {[np.shape(x) for x in dd]} -> {[np.shape(x) for x in fd]}")
             return [pred, [_tolist(tuple(fo[0])), [_tolist(fo[1]), _tolist(fo[2]) if len(fo) > 2 else None]]]
     return C.call(run)
 
@@ -316,11 +336,18 @@ def compare(case, io, mo):
     if case["op"] == "power_comb 0":
         return "diff:implementation failed: " + io[1] if C.is_err(io) else "ok"
     e = C.err_compare(io, mo)
-    if e and not (C.is_err(io) and C.is_err(mo)):
+    if e and not (C.is_err(io) and C.is_err(mo)) and not (C.is_err(io) and io[1] == "TypeError"):
         if C.is_err(io):
             return e
+    def refuses(m):
+        return C.is_err(m) and m[1] == "TypeError"
+    model_refuses = refuses(mo) or (isinstance(mo, list) and len(mo) == 2 and refuses(mo[0]) and refuses(mo[1]))
     if C.is_err(io):
+        if io[1] == "TypeError" and model_refuses:
+            return "ok"      # both refuse (weights handed to a reduction that has no `weights` argument)
         return "diff:implementation failed: " + io[1]
+    if model_refuses:
+        return "diff:model refuses (TypeError) but implementation succeeded"
     pm, fm = mo
     if (C.is_err(pm) and pm[1] == "Other") or (C.is_err(fm) and fm[1] == "Other"):
         return "amb"     # a Trend step met a rank-deficient system (model: singular; scikit-learn: minimum norm) - outside the property
@@ -347,8 +374,32 @@ def _close(a, b, tol=1e-7, scale=None):
 
 def oracle(case, io):
     spec, coords, data, weights, q = case["args"]
+
+    def by_hand(sp, args):
+        """The composition threaded by hand through freshly built steps (chains step by step, vectors component by component)."""
+        if sp[0] == "chain":
+            for s_ in sp[1]:
+                args = by_hand(s_, args)
+            return args
+        if sp[0] == "vector":
+            dd, ww = args[1], (args[2] if len(args) > 2 else None)
+            for i, s_ in enumerate(sp[1]):
+                by_hand(s_, (args[0], dd[i], None if ww is None else ww[i]))
+            return args
+        return build(sp).filter(*args)
+    with warnings.catch_warnings():
+        warnings.simplefilter("ignore")
+        try:
+            by_hand(spec, _args(coords, data, weights))
+            hand = None
+        except Exception as exc:  # noqa: BLE001
+            hand = C.err_kind(exc)
     if C.is_err(io):
+        if hand is not None and hand == io[1]:
+            return None      # the composition fails exactly as its own steps do when called one after the other
         return "composition failed: " + io[1]
+    if hand == "TypeError":
+        return "the steps called one after the other refuse these arguments (TypeError) but the composition accepted them"
     tie = _near_tie(spec, coords, data, weights, q)
     nmax = lambda x: float(np.nanmax(np.abs(np.asarray(x, dtype=float)), initial=0.0))  # noqa: E731
     with warnings.catch_warnings():
@@ -427,12 +478,13 @@ def oracle(case, io):
         if spec[0] == "vector":
             for i, s in enumerate(spec[1]):
                 comp = build(s)
-                comp.fit(cs, np.array(data[i]), None if weights is None else np.array(weights[i]))
+                shp = np.shape(cs[0])
+                comp.fit(cs, np.array(data[i]).reshape(shp), None if weights is None else np.array(weights[i]).reshape(shp))
                 if not _close(pred[i], _tolist(comp.predict(qq))[0]):
                     return f"Vector component {i} differs from the same estimator fitted separately on data[{i}] with weights[{i}]"
         # refit: fit on other data, then on the original data again
         g3 = build(spec)
-        other = tuple(np.array(x)[::-1] * 2.0 + 1.0 for x in data)
+        other = tuple((np.array(x)[::-1] * 2.0 + 1.0).reshape(np.shape(cs[0])) for x in data)
         g3.fit(cs, other[0] if len(other) == 1 else other, w)
         g3.fit(cs, d, w)
         if not _close(_tolist(g3.predict(qq)), pred, 1e-9):
